@@ -17,13 +17,20 @@ positions:
 * `cursor_invariant_pre_partial` — after `consume_until_*` the cursor sits on the last skipped
   *trivia* token; peeks and consumes are still invariant there (given that the next token does not
   end on a later line than the cursor, true for lexer output), but `current_indent()` itself is
-  NOT: `current_indent_pre_not_invariant` (this is defect F-C10-1 of the implementation).
+  NOT: `current_indent_pre_not_invariant`. This was defect F-C10-1 of the implementation: the
+  parser's only reads of `current_indent()` on such a position (`consume_switch_expression`,
+  `consume_match_expression`) were repaired in /repo 5f1b75a (they now peek the arm's own token).
+  The theorem stays true of the primitive; that the parser no longer *uses* it there is re-checked
+  on every run by the structural scan of parser.rs in the harness (`indent_read_scan`: no
+  `current_indent()` between a `consume_until_*` call and the next consuming call; the functions
+  that read it before consuming anything are a reviewed, pinned set).
 * `line_edit_at_file_start_not_invariant` — why `TriviaEdit.line` demands a preceding `NewLine`
   token: inserting a trivia line before the first token of the file changes `same_line`
   (defect F-C10-2 of the implementation).
 * `cursor_invariant_raw`, `peek_skips_only_trivia`, `indent_rule_table`, `queue_transparent`.
 
-Inspection (trusted, not proved; checked against parser.rs at 31f5a26): line numbers obtained from
+Inspection (trusted, not proved; checked against parser.rs at 5f1b75a; the `self.lexer` /
+`current_token` / `current_indent()` parts are re-scanned by the harness on every run): line numbers obtained from
 `current_line()` / `LexedToken::line()` / `span.start.line` are used only in `<`/`>`/`==`
 comparisons with each other (parser.rs lines 534, 641, 702, 1529, 2003, 2031, 4036, 4072) or to
 build spans (418, 2473), so relating them by an order-preserving `ρ` is all a client can observe;
@@ -327,10 +334,19 @@ theorem witAB_edit : TriviaEdit (shift 1 1) witA witB := by
     exact ⟨by simp [shift, wtok], by simp [shift, wtok]⟩
   · exact Moved.cons rfl (fun _ => ⟨rfl, rfl, by simp [shift, wtok], by simp [shift, wtok]⟩) Moved.nil
 
-/-- **Negation (defect F-C10-1).** `current_indent()` read directly after
+/-- **Negation (defect F-C10-1, fixed in /repo 5f1b75a).** `current_indent()` read directly after
 `consume_until_token_with_context` is not invariant under inserting a comment-only line: the
 current token is then the `NewLine` that ends the inserted line and carries *its* indent.
-`consume_switch_expression` / `consume_match_expression` read it exactly there. -/
+This remains a fact about the primitive. `consume_switch_expression` / `consume_match_expression`
+were the parser's only callers that read it exactly there; since 5f1b75a they read the indentation
+of the first arm through `peek_token_with_context` instead, which on that position is invariant
+without any side condition (`cursor_invariant_pre_partial`, first conjunct). The harness re-scans
+parser.rs on every run and reports any `current_indent()` that directly follows `consume_until_*`
+(`K:C10:current_indent-after-consume_until`). The one remaining read on a skipped-trivia position,
+`parse_term`'s `start_indent`, is only compared as `peeked.info.indent > start_indent` for a `@`
+key, where the peeked token is on the cursor's line: its indent is 0 (cursor on a `NewLine`) or the
+cursor's own (cursor on whitespace / a comment), so the comparison is false on both sides of any
+trivia edit. -/
 theorem current_indent_pre_not_invariant :
     ∃ (ρ : Nat → Nat → Prop) (ts ts' : List Lexed) (ctx : Ctx), LineRel ρ ∧ TriviaEdit ρ ts ts' ∧
       currentIndent (consumeUntilTokenWithContext ctx (consumeToken (Cur.init ts)).2).2 ≠
